@@ -190,3 +190,57 @@ Proof.
     + cbn [sqrt_is]. split; [discriminate|intros [X _]; discriminate X].
     + rewrite (sqrt_is_finite m e num den L). split; [intros H; split; [reflexivity|exact H]|intros [_ H]; exact H].
 Qed.
+
+(* ------------------------------------------------------------------ the bracket singles out the nearest float *)
+(* For x = m 2^e accepted by the bracket and any other binary64 g >= 0: the midpoint (x + g)/2 lies on the far side of sqrt(num/den),
+   i.e. x is at least as close to the square root as g — written without square roots:
+       g > x :  num/den <= ((x + g)/2)^2          g < x :  ((x + g)/2)^2 <= num/den
+   (F = x 2^1074, G = g 2^1074; 4 * 2^2148 = 2^2150).  Excluded: m = 2^52 above the subnormals, where the float just below x is half an ulp away and the
+   bracket admits it too.  (A negative g is farther from the non-negative root than 0 is.) *)
+Theorem sqrt_is_nearest m e num den g : 0 < den ->
+  valid_binary prec emax (S754_finite false m e) = true -> (Zpos m <> 2 ^ 52 \/ e = -1074) ->
+  sqrt_is (S754_finite false m e) num den = true ->
+  valid_binary prec emax g = true -> 0 <= sfZs g ->
+  let F := sfZs (S754_finite false m e) in let G := sfZs g in
+  (F < G -> num * 2 ^ 2150 <= (F + G) ^ 2 * den) /\ (G < F -> (F + G) ^ 2 * den <= num * 2 ^ 2150).
+Proof.
+  intros Hden Vx Hnb Hs Vg HG0 F G.
+  destruct (valid_bounds false m e Vx) as (Hm & He & _).
+  apply (sqrt_is_finite m e num den He) in Hs. destruct Hs as [Hlo Hhi].
+  (* the mantissa of x is canonical *)
+  assert (Hcan : 2 ^ 52 <= Zpos m \/ e = -1074).
+  { unfold valid_binary, bounded, canonical_mantissa in Vx. rewrite andb_true_iff, Zeq_bool_is_eqb in Vx.
+    unfold fexp, emin, prec, emax in Vx. destruct Vx as [C _]. pose proof (digits2_pos_bounds m) as B.
+    destruct (Z.eq_dec e (-1074)) as [E|NE]; [right; exact E|left].
+    assert (Zpos (digits2_pos m) = 53) by lia. rewrite H in B. exact (proj1 B). }
+  set (U := 2 ^ (e + 1074)) in *. assert (PU : 0 < U) by (apply pow2_pos; lia).
+  assert (EF : F = Zpos m * U) by reflexivity.
+  rewrite <- EF in Hlo, Hhi.
+  assert (FU : U <= F) by (rewrite EF; nia).
+  (* any other float is at least one unit of x away *)
+  assert (Far : (F < G -> F + U <= G) /\ (G < F -> G <= F - U)).
+  { clear Hlo Hhi. unfold G. destruct g as [sg|sg| |sg mg eg]; cbn [sfZs] in *; try (split; intros; lia).
+    destruct (valid_bounds sg mg eg Vg) as (Hmg & Heg & _).
+    destruct sg; [assert (0 < Zpos mg * 2 ^ (eg + 1074)) by (assert (0 < 2 ^ (eg + 1074)) by (apply pow2_pos; lia); nia); lia|].
+    set (Ug := 2 ^ (eg + 1074)) in *. assert (PUg : 0 < Ug) by (apply pow2_pos; lia).
+    destruct (Z_le_gt_dec e eg) as [L|Gt].
+    - set (k := Zpos mg * 2 ^ (eg - e)).
+      assert (EG : Zpos mg * Ug = k * U).
+      { unfold k, Ug, U. replace (eg + 1074) with ((eg - e) + (e + 1074)) by lia. rewrite pow2_split by lia. ring. }
+      rewrite EG, EF. split; intros H.
+      + assert (Zpos m + 1 <= k) by nia. nia.
+      + assert (k <= Zpos m - 1) by nia. nia.
+    - assert (Hm52 : 2 ^ 52 < Zpos m) by lia.
+      assert (EU : U = Ug * 2 ^ (e - eg)).
+      { unfold U, Ug. replace (e + 1074) with ((eg + 1074) + (e - eg)) by lia. rewrite pow2_split by lia. reflexivity. }
+      assert (P2 : 2 <= 2 ^ (e - eg)) by (change 2 with (2 ^ 1) at 1; apply Z.pow_le_mono_r; lia).
+      assert (H2U : 2 * Ug <= U) by (rewrite EU; nia).
+      assert (HG1 : Zpos mg * Ug <= (2 ^ 53 - 1) * Ug) by (apply Z.mul_le_mono_nonneg_r; lia).
+      assert (HF1 : (2 ^ 52 + 1) * U <= F) by (rewrite EF; apply Z.mul_le_mono_nonneg_r; lia).
+      split; intros H; lia. }
+  destruct Far as [Far1 Far2]. split; intros H.
+  - specialize (Far1 H). apply Z.le_trans with ((2 * F + U) ^ 2 * den); [exact Hhi|].
+    apply Z.mul_le_mono_nonneg_r; [lia|]. apply Z.pow_le_mono_l. lia.
+  - specialize (Far2 H). apply Z.le_trans with ((2 * F - U) ^ 2 * den); [|exact Hlo].
+    apply Z.mul_le_mono_nonneg_r; [lia|]. apply Z.pow_le_mono_l. unfold G in *. lia.
+Qed.
